@@ -1711,6 +1711,15 @@ fn drop_stream_ref(inner: &Mutex<Inner>, key: store::Key) {
             }
         }
     });
+
+    // If this was the last handle of any kind, the connection task may have
+    // to shut the connection down. Nothing above wakes it when the dropped
+    // stream was, for instance, still waiting to be opened.
+    if me.refs == 1 {
+        if let Some(task) = me.actions.task.take() {
+            task.wake();
+        }
+    }
 }
 
 fn maybe_cancel(stream: &mut store::Ptr, actions: &mut Actions, counts: &mut Counts) {
